@@ -59,7 +59,7 @@ pub fn ref_text(m: &BTreeMap<String, String>) -> Result<String, ()> {
 
 impl CModel {
     pub fn new(prop: &'static str, tier: Tier) -> CModel {
-        let mut spellings: Vec<&str> = vec!["a", "A", "b", "B", "é", "É", "ǅ", "ǆ"];
+        let mut spellings: Vec<&str> = vec!["a", "A", "a1", "A1", "b", "é", "É", "ǅ", "ǆ"];
         if tier == Tier::Thorough {
             spellings.extend(["a:b", "A:B", ""]);
         }
@@ -69,10 +69,10 @@ impl CModel {
         lower.dedup();
         let mut acts = Vec::new();
         for s in &spellings {
-            for v in ["", "00", "0A", "0a", "0", "zz"] {
+            for v in ["", "00", "0A", "0", "zz"] {
                 acts.push(CAct::InsertRaw(s.clone(), v.to_owned()));
             }
-            for b in [vec![], vec![0u8], vec![0xAB, 0xCD]] {
+            for b in [vec![0u8], vec![0xAB, 0xCD]] {
                 acts.push(CAct::InsertBytes(s.clone(), b));
             }
         }
